@@ -32,11 +32,14 @@
                                     included, from any prior content of the set;
     no_dangling_policy_batch_partial  syncRules never submits a rule naming a missing chain / set: its only possible
                                     failures are the busy -X (D17) and the type clash of `ipset create`.
-  NOT proved (monitored on the real dumps by harness c15 only): the end state of the
-  pod chains after the whole loop over the pods (non-interference between pods), absence of other GLX-POD chains
-  (false: D13), idempotence of the whole state, no-dangling for the pod batches.
+    ipset_entries_exact, pods_loop_exact, full_sync_exact_under_hypotheses, full_sync_idempotent_under_hypotheses,
+    no_dangling_pod_batch            the whole owned state after a full sync, its idempotence and the pod batches, under
+                                    the explicit hypothesis `PriorPods` about the prior table (exactly what D13 violates;
+                                    `pods_loop_counter_d13` shows it is needed) and "syncRules reports no failure" (D17).
+  NOT proved: that the four base jumps are present whenever some pod is active (only that nothing else is added to the
+  built-in chains: frame_foreign); correspondence of the strict primitive semantics with a kernel (harness/nf).
 -/
-import Galaxy.Lemmas.PolicySyncSets
+import Galaxy.Lemmas.PolicyNames
 
 namespace Galaxy.Props.C15
 open Galaxy.Policy
@@ -109,6 +112,105 @@ theorem no_dangling_policy_batch_partial (k : Kern) (c : Cluster) (ps : List Net
     (hkeys : (Tbl.keys k.tbl).Nodup) :
     ∀ f ∈ (syncRules k c ps).2, f = Fail.restoreBusy ∨ f = Fail.createMismatch :=
   syncRules_fails_only_busy k c ps hkeys
+
+/-! ## the whole owned state (A): ipsets, the loop over the pods, idempotence, pod batches -/
+
+theorem syncRules_eq : syncRules = syncRulesWith true := by
+  unfold syncRules; rw [show G.createIPSetKeepsRekeyedEntries = true from by decide]
+
+theorem fullSync_eq : fullSync = fullSyncWith true := by
+  unfold fullSync; rw [show G.createIPSetKeepsRekeyedEntries = true from by decide]
+
+/-- "the galaxy-owned ipsets … are exactly those derived from the current NetworkPolicies and pods, regardless of
+    what galaxy … sets existed before": after syncRules (current source) from ANY prior sets — any names, any types,
+    any entries, provided each prior set holds one element per key, as a kernel set does — if no `ipset create` clashes
+    on the type (the only failure of the set pass), every compiled set exists with the compiled type and holds exactly
+    the compiled entries, options included, and every stale GLX set no rule matches on any more is destroyed.
+    Excluded: compiled entries that carry one key under two options (`ipset_entries_counter_key_clash`). -/
+theorem ipset_entries_exact (k : Kern) (c : Cluster) (ps : List NetPol) (hps : (ps.map (·.hash)).Nodup)
+    (hcons : ∀ s ∈ compileSets c ps, KeysConsistent s.entries)
+    (hold : ∀ s0 ∈ k.sets, KeysNodup s0.entries)
+    (hok : ∀ f ∈ (syncRules k c ps).2, f ≠ Fail.createMismatch) :
+    (∀ s ∈ compileSets c ps, SetIs (syncRules k c ps).1.sets s.name s.type s.entries) ∧
+    (∀ n ∈ k.sets.map (·.name), n.isGlx = true → n ∉ (compileSets c ps).map (·.name) →
+      setReferenced (syncRules k c ps).1.tbl n = false → setExists (syncRules k c ps).1.sets n = false) := by
+  rw [syncRules_eq] at hok ⊢
+  exact syncRules_sets_exact k c ps (compileSets_names_nodup c ps hps) hcons hold hok
+
+/-- "… and the chains of the pods on the node are exactly those derived …": the END STATE OF THE LOOP over all local
+    pods (sequential model of syncPods).  Hypothesis `PriorPods`: the prior table has distinct chain names and the
+    built-in chains; no GLX-POD chain of a pod outside the cluster's local pods or without address; every hook rule of
+    GLX-INGRESS / GLX-EGRESS is the canonical hook — with the pod's CURRENT address — of a local pod whose chain
+    exists, none twice; nothing else jumps to a pod chain.  Plus: the policy chains exist (the policy sync succeeded).
+    Then no call fails, the ipsets are untouched, chain GLX-POD-<h> exists iff h is the hash of a local pod with an
+    address that some policy selects and then holds exactly `podChain`, the hook chains hold exactly the hooks of the
+    pods selected in that direction, and the hypothesis holds again.  The proof is the frame argument: each call
+    touches only its own chain, its own hooks and the base jumps (`PodStep`), then induction over the pod list. -/
+theorem pods_loop_exact (k : Kern) (c : Cluster) (ps : List NetPol) (node : String)
+    (hL : ((localPods c node).map (·.hash)).Nodup) (pr : PriorPods (localPods c node) k.tbl)
+    (hplcy : ∀ p ∈ ps, chainExists k.tbl (.plcy p.hash) = true) :
+    (syncPods k c ps node).2 = [] ∧ (syncPods k c ps node).1.sets = k.sets ∧
+    (∀ h rs, Tbl.get (syncPods k c ps node).1.tbl (.pod h) = some rs ↔
+      ∃ q ∈ localPods c node, q.hash = h ∧ activePod ps q = true ∧ rs = podChain ps q) ∧
+    (∀ r, r ∈ hooks (syncPods k c ps node).1.tbl .glxIngress ↔
+      ∃ q ∈ localPods c node, hookRule true q = [r] ∧ hookedIngress ps q = true) ∧
+    (∀ r, r ∈ hooks (syncPods k c ps node).1.tbl .glxEgress ↔
+      ∃ q ∈ localPods c node, hookRule false q = [r] ∧ hookedEgress ps q = true) ∧
+    PriorPods (localPods c node) (syncPods k c ps node).1.tbl := by
+  have inv : PodInv ps (localPods c node) k.tbl :=
+    ⟨pr.keys, pr.builtin, hplcy, pr.podchains, pr.hooksI, pr.hooksE, pr.nodupI, pr.nodupE, pr.refs⟩
+  obtain ⟨p1, p2, p3, p4, _⟩ := syncPods_spec k c ps node hL inv
+  obtain ⟨x1, x2, x3⟩ := pods_exact_of_inv p3 hL p4
+  exact ⟨p1, p2, x1, x2, x3, p3.prior⟩
+
+/-- FULL SYNC, the whole owned state: under `PriorPods`, distinct name hashes, one element per key in the prior sets
+    and no key under two options in the compiled entries, a full sync whose policy step (syncRules) reports no
+    failure reports no failure at all, and leaves exactly: the compiled GLX-PLCY chains, the compiled GLX-POD chains,
+    the compiled hook rules, the compiled ipsets (entries with options); and the hypotheses hold again. -/
+theorem full_sync_exact_under_hypotheses (k : Kern) (c : Cluster) (ps : List NetPol) (node : String)
+    (hps : (ps.map (·.hash)).Nodup) (hL : ((localPods c node).map (·.hash)).Nodup)
+    (pr : PriorPods (localPods c node) k.tbl) (hcons : ∀ s ∈ compileSets c ps, KeysConsistent s.entries)
+    (hold : ∀ s0 ∈ k.sets, KeysNodup s0.entries) (hok : (syncRules k c ps).2 = []) :
+    (fullSync k c ps node).2 = [] ∧ OwnedExact c ps node (fullSync k c ps node).1.tbl ∧
+    (∀ s ∈ compileSets c ps, SetIs (fullSync k c ps node).1.sets s.name s.type s.entries) ∧
+    PriorPods (localPods c node) (fullSync k c ps node).1.tbl := by
+  rw [syncRules_eq] at hok; rw [fullSync_eq]
+  obtain ⟨a, b, d, e⟩ := fullSync_exact k c ps node ⟨hps, hL, pr, compileSets_names_nodup c ps hps, hcons, hold⟩ hok
+  exact ⟨a, b, d, e.prior⟩
+
+/-- "synchronising again changes nothing" — for the WHOLE owned state, under the same hypotheses: the second full sync
+    reports no failure and leaves every GLX-PLCY chain, every GLX-POD chain, the hook rules of GLX-INGRESS /
+    GLX-EGRESS and the contents of every compiled ipset as the first one left them (what is not galaxy's is
+    untouched by `frame_foreign`). -/
+theorem full_sync_idempotent_under_hypotheses (k : Kern) (c : Cluster) (ps : List NetPol) (node : String)
+    (hps : (ps.map (·.hash)).Nodup) (hL : ((localPods c node).map (·.hash)).Nodup)
+    (pr : PriorPods (localPods c node) k.tbl) (hcons : ∀ s ∈ compileSets c ps, KeysConsistent s.entries)
+    (hold : ∀ s0 ∈ k.sets, KeysNodup s0.entries) (hok : (syncRules k c ps).2 = []) :
+    let S1 := (fullSync k c ps node).1
+    let R2 := fullSync S1 c ps node
+    R2.2 = [] ∧
+    (∀ h, Tbl.get R2.1.tbl (.plcy h) = Tbl.get S1.tbl (.plcy h)) ∧
+    (∀ h, Tbl.get R2.1.tbl (.pod h) = Tbl.get S1.tbl (.pod h)) ∧
+    (∀ r, r ∈ hooks R2.1.tbl .glxIngress ↔ r ∈ hooks S1.tbl .glxIngress) ∧
+    (∀ r, r ∈ hooks R2.1.tbl .glxEgress ↔ r ∈ hooks S1.tbl .glxEgress) ∧
+    (∀ s ∈ compileSets c ps, ∃ e1 e2, setEntries S1.sets s.name = some e1 ∧ setEntries R2.1.sets s.name = some e2 ∧
+      ∀ y, y ∈ e2 ↔ y ∈ e1) := by
+  rw [syncRules_eq] at hok; rw [fullSync_eq]
+  exact fullSync_idempotent k c ps node ⟨hps, hL, pr, compileSets_names_nodup c ps hps, hcons, hold⟩ hok
+
+/-- "no batch of rules is submitted that references a chain … which does not exist at that point", for the batch of
+    SyncPodChains: from ANY table with distinct chain names in which the chains of the current policies exist (what a
+    successful policy sync guarantees, `policy_chains_exact_partial`), the pod-chain batch is accepted. -/
+theorem no_dangling_pod_batch (k : Kern) (ps : List NetPol) (q : Pod) (hk : (Tbl.keys k.tbl).Nodup)
+    (hplcy : ∀ p ∈ ps, chainExists k.tbl (.plcy p.hash) = true) :
+    ∃ t2, restore k (Cmd.decl (.pod q.hash) :: (podChain ps q).map (Cmd.app (.pod q.hash))) = .ok t2 := by
+  obtain ⟨t2, h, _⟩ := podBatch_spec k (.pod q.hash) (podChain ps q) rfl hk (by
+    intro r hr
+    obtain ⟨h1, h2⟩ := podChain_rules ps q r hr
+    refine ⟨h1, fun c' hc' => ?_⟩
+    obtain ⟨p, hp, rfl⟩ := h2 c' hc'
+    exact hplcy p hp)
+  exact ⟨t2, h⟩
 
 /-! ## witnesses -/
 
@@ -205,6 +307,52 @@ theorem ipset_entries_exact_partial (sets sets' : List IpSet) (s old : IpSet)
     unfold syncOneSet; rw [show G.createIPSetKeepsRekeyedEntries = true from fact_createIPSet_keeps_rekeyed_entries]
   rw [hk] at h
   exact syncOneSet_entries_exact sets sets' s old hfind hold hnew h
+
+/-- the hypothesis is needed (D13): in the state left by a sync of (cA, [x]) pod a's chain exists; for the cluster
+    without pod a this violates `PriorPods`, and indeed the loop leaves the chain (`full_sync_exact_counter_d13`). -/
+theorem pods_loop_counter_d13 :
+    ¬ PriorPods (localPods ⟨nss1, []⟩ "node1") (fullSync k0 cA [polX] "node1").1.tbl := by
+  intro pr
+  obtain ⟨q, hq, _, _⟩ := pr.podchains "CDPJYSJ2OESJAMJJ" (by decide)
+  simp [localPods] at hq
+
+/-- the cascade when the policy sync FAILS (corpus/C15/upd-fault.ops injects a kernel error; here the prior kernel holds
+    a set named like x's target set but of type hash:net, so `ipset create -exist` clashes): syncRules aborts before
+    any rule is submitted, the run goes on to the pod chains, and a's batch jumps to GLX-PLCY-x, which was never
+    created (restore:no-target) — the hypothesis of `no_dangling_pod_batch` is needed. -/
+theorem pod_batch_counter_failed_policy_sync :
+    let k : Kern := ⟨[⟨⟨.sel, 0, "GZ6RV4PA44SL5TUX"⟩, .hashNet, []⟩], k0.tbl⟩
+    (fullSync k cA [polX] "node1").2 = [.createMismatch, .restoreNoTarget] ∧
+    chainExists (fullSync k cA [polX] "node1").1.tbl (.plcy "GZ6RV4PA44SL5TUX") = false := by
+  decide
+
+/-- the exclusion of `ipset_entries_exact` is needed: a rule that lists 10.0.1.0/24 both as an except and as a cidr
+    compiles to one key under two options; the set then holds whichever was written last and FLIPS on every sync. -/
+theorem ipset_entries_counter_key_clash :
+    let p := pol "x" "GZ6RV4PA44SL5TUX" 80 [.block ⟨ip4 10 0 0 0, 8⟩ [⟨ip4 10 0 1 0, 24⟩], .block ⟨ip4 10 0 1 0, 24⟩ []]
+    let s1 := (fullSync k0 cA [p] "node1").1
+    let s2 := (fullSync s1 cA [p] "node1").1
+    setEntries s1.sets ⟨.snet, 0, "GZ6RV4PA44SL5TUX"⟩ = some [.net ⟨ip4 10 0 0 0, 8⟩ false, .net ⟨ip4 10 0 1 0, 24⟩ false] ∧
+    setEntries s2.sets ⟨.snet, 0, "GZ6RV4PA44SL5TUX"⟩ = some [.net ⟨ip4 10 0 0 0, 8⟩ false, .net ⟨ip4 10 0 1 0, 24⟩ true] := by
+  decide
+
+/-- non-vacuity of the hypotheses: the empty kernel satisfies `PriorPods` (and so does, by
+    `full_sync_exact_under_hypotheses`, every state a successful sync leaves) -/
+example : PriorPods (localPods cA "node1") k0.tbl ∧ (syncRules k0 cA [polX]).2 = [] := by
+  refine ⟨⟨by decide, fun b hb => by cases b <;> first | decide | (cases hb), ?_, ?_, ?_, by decide, by decide, ?_⟩,
+    by decide⟩
+  · intro h hx; simp [chainExists, k0, Tbl.get] at hx
+  · intro r hr; simp [hooks, k0, Tbl.get] at hr
+  · intro r hr; simp [hooks, k0, Tbl.get] at hr
+  · intro cn rs hg _ _ r hr
+    simp only [k0, Tbl.get] at hg
+    split at hg
+    · cases hg; cases hr
+    · split at hg
+      · cases hg; cases hr
+      · split at hg
+        · cases hg; cases hr
+        · cases hg
 
 /-! ## facts of the source the model relies on -/
 
